@@ -27,11 +27,11 @@ PURINES = ("A", "G", "DA", "DG")
 PYRIMIDINES = ("C", "U", "T", "DC", "DT")
 # corpus files (under $VERIF_REPO/tests): RNA structures with A-form stems, single model
 CORPUS_QUICK = ["1E7K_1_C.cif", "1DFU_1_M-N.cif", "4WTI_1_T-P.cif", "1ehz-assembly-1.cif", "4qln.pdb", "2HY9.cif", "1E7K_1_C.cif#drop0",
-                "1DFU_1_M-N.cif#drop1"]
+                "1DFU_1_M-N.cif#drop1", "1E7K_1_C.cif#nname1", "1E7K_1_C.cif#icode2"]
 CORPUS_THOROUGH = ["1E7K_1_C.cif", "1DFU_1_M-N.cif", "4WTI_1_T-P.cif", "1ehz-assembly-1.cif", "4qln.pdb",
                    "4qln.cif", "6FC9.cif", "184D.cif", "1JJP.cif", "1HMH_1_E.cif",
                    "4gqj-assembly1.cif", "8btk_B7.cif", "488d.pdb", "1E7K_1_C.cif#drop0", "1DFU_1_M-N.cif#drop1",
-                   "1ehz-assembly-1.cif#drop2", "1JJP.cif#drop0"]
+                   "1ehz-assembly-1.cif#drop2", "1JJP.cif#drop0", "1E7K_1_C.cif#nname1", "1JJP.cif#nname2", "1E7K_1_C.cif#icode2", "1ehz-assembly-1.cif#icode1"]
 AFORM_QUICK = ["1E7K_1_C.cif"]
 AFORM_THOROUGH = ["1E7K_1_C.cif", "1ehz-assembly-1.cif", "4qln.pdb", "4qln.cif"]
 
@@ -241,10 +241,43 @@ def _variant_text(name):
     in turn) removed from every third residue - a residue whose chi is not defined."""
     from . import atomtable, presentation
     base, var = name.split("#")
-    k = int(var[4:])
     lines = presentation.base_lines(base)
     if lines is None:
-        raise lib.MachineryError(f"{base}: not usable for an atom-drop variant")
+        raise lib.MachineryError(f"{base}: not usable for a variant")
+    if var.startswith("nname"):
+        # every fourth residue is called "N" (any nucleotide): its base letter is unknown to the library, its
+        # glycosidic torsion is still the one about the bond its atoms show (N9-C4 when there is an N9)
+        k = int(var[5:])
+        out, idx, key = [], -1, None
+        for ln in lines:
+            kk = (ln["ch"], ln["num"], ln["ic"])
+            if kk != key:
+                key = kk
+                idx += 1
+            out.append(dict(ln, rn="N") if idx % 4 == k % 4 else ln)
+        return atomtable.emit("cif", out)
+    if var.startswith("icode"):
+        # order-preserving renumbering with insertion codes: every fourth residue n+1 becomes n^A
+        k = int(var[5:])
+        keys = []
+        for ln in lines:
+            kk = (ln["ch"], ln["num"], ln["ic"])
+            if not keys or keys[-1] != kk:
+                keys.append(kk)
+        ren = {}
+        for i in range(1, len(keys)):
+            a, b = keys[i - 1], keys[i]
+            if i % 4 == k % 4 and a[0] == b[0] and a[2] == "" and b[2] == "" and b[1] == a[1] + 1 and (i - 1) not in ren:
+                ren[i] = (a[1], "A")
+        out, idx, key = [], -1, None
+        for ln in lines:
+            kk = (ln["ch"], ln["num"], ln["ic"])
+            if kk != key:
+                key = kk
+                idx += 1
+            out.append(dict(ln, num=ren[idx][0], ic=ren[idx][1]) if idx in ren else ln)
+        return atomtable.emit("cif", out)
+    k = int(var[4:])
     out, idx, key = [], -1, None
     for ln in lines:
         kk = (ln["ch"], ln["num"], ln["ic"])
@@ -330,6 +363,9 @@ def record_corpus_file(name):
         if chi_name is None and r1 is not None:
             chi_name = "chiR" if r1.one_letter_name.upper() in ("A", "G") else \
                 "chiY" if r1.one_letter_name.upper() in ("C", "U", "T") else None
+        if chi_name is None and r1 is not None and r1.find_atom("C1'") is not None:
+            # base letter unknown (e.g. residue name "N"): the glycosidic bond is the one the atoms show
+            chi_name = "chiR" if r1.find_atom("N9") is not None else "chiY" if r1.find_atom("N1") is not None else None
         meas = {}
         for angle in ("alpha", "beta", "gamma", "delta", "epsilon", "zeta", chi_name):
             if angle is None:
